@@ -324,6 +324,11 @@ def _run_uf(ctx, pool, ops, rng, init=False, full_every=1, views_every=4):
                 ok, r = ctx.call("connected", uf.connected, *args, monitor="uf_model")
                 ctx.check(bool(r) == (model.block[args[0]] == model.block[args[1]]), "uf_model", "connected", "wrong_answer",
                           "connected(x,y) disagrees with the model", x=args[0], y=args[1], got=r)
+            elif args[0] != args[1]:
+                # an element that was never added has been joined to nothing: the query may be refused (ValueError), it must not answer True
+                ok, r = ctx.call("connected", uf.connected, *args, expect=(ValueError, KeyError), monitor="uf_model")
+                ctx.check(not (ok and bool(r)), "uf_model", "connected", "absent_element_reported_connected",
+                          "connected(x,y) answers True although one of the two elements was never added", x=args[0], y=args[1])
         elif name == "component":
             if args[0] in model.block:
                 ok, c = ctx.call("component", uf.component, args[0], monitor="uf_model")
